@@ -530,4 +530,6 @@ def sweep(res, tier, rng, reports, only=None):
         u['options'] = dict(u['options'])
     for name, e in build_errors.items():
         reports.append(({'what': 'harness of unit %s does not build against this tree' % name, 'error': e}, None, None, True))
-    return {'units': per_unit, 'jobs': len(jobs), 'unit_docs': {name: (f.__doc__ or '').strip() for name, (f, a, b) in UNITS.items()}}
+    return {'units': per_unit, 'jobs': len(jobs), 'distinct_inputs': len(set((j.unit, tuple(j.argv), j.stdin) for j in jobs)),
+            'samples': [jobs[i].replay() for i in sorted(set([0, len(jobs) // 2, len(jobs) - 1]))] if jobs else [],
+            'unit_docs': {name: (f.__doc__ or '').strip() for name, (f, a, b) in UNITS.items()}}
